@@ -171,6 +171,8 @@ type Run struct {
 	violations []string
 	problems []string
 	known    *KnownFindings
+	alt      map[string]*SolverPool
+	portfolioWins int
 }
 
 func newRun(ld *Loaded, o *Options) *Run {
@@ -331,6 +333,9 @@ func (r *Run) execute() int {
 		for _, p := range r.pools {
 			p.Close()
 		}
+		for _, p := range r.alt {
+			p.Close()
+		}
 	}()
 	sort.Slice(r.results, func(i, j int) bool {
 		if r.results[i].Harness != r.results[j].Harness {
@@ -347,6 +352,7 @@ func (r *Run) runCase(hc harnessCase) *JobResult {
 	var x *Exec
 	err := protect(func() {
 		x = NewExec(r.ld)
+		x.tier = r.o.Tier
 		var args []Value
 		if hc.k >= 0 {
 			args = append(args, x.c.Const(64, uint64(hc.k)))
@@ -499,7 +505,7 @@ func (r *Run) solveOne(pq *pendingQuery, jr *JobResult) {
 		os.WriteFile(filepath.Join(r.o.KeepSMT, fmt.Sprintf("pre_%s_%d_%p.smt2", jr.Harness, jr.Case, pq)),
 			[]byte("; "+pq.res.ID+"\n"+pq.q.Text+"(check-sat)\n"), 0o644)
 	}
-	res := r.pool.Solve(pq.q, r.o.Timeout, true)
+	res := r.solvePortfolio(pq.q)
 	pq.res.Status = res.Status
 	pq.res.Secs = res.Secs
 	pq.res.Nodes = pq.q.Nodes
@@ -828,3 +834,50 @@ func init() {
 }
 
 var debugObls bool
+
+// solvePortfolio: the primary solver decides; floating-point queries and queries the primary leaves
+// undecided go to all three solvers concurrently and the first definite verdict wins.
+func (r *Run) solvePortfolio(q *Query) *SolveResult {
+	if !q.HasFP {
+		res := r.pool.Solve(q, r.o.Timeout, true)
+		if res.Status == "sat" || res.Status == "unsat" || res.Status == "error" {
+			return res
+		}
+	}
+	r.mu.Lock()
+	if r.alt == nil {
+		r.alt = map[string]*SolverPool{}
+		for _, k := range []string{"z3", "z3new", "cvc5", "cvc5int"} {
+			if k != primarySolver() {
+				r.alt[k] = NewSolverPool(k, r.o.Jobs)
+			}
+		}
+		r.alt[primarySolver()] = r.pool
+	}
+	r.mu.Unlock()
+	kinds := []string{"cvc5int", "cvc5", "z3"}
+	if q.HasFP {
+		kinds = []string{"cvc5", "z3", "z3new"}
+	}
+	ch := make(chan *SolveResult, len(kinds))
+	for _, k := range kinds {
+		go func(k string) {
+			res := r.alt[k].Solve(q, r.o.Timeout, true)
+			res.Raw = k + ": " + res.Raw
+			ch <- res
+		}(k)
+	}
+	var last *SolveResult
+	for range kinds {
+		res := <-ch
+		if res.Status == "sat" || res.Status == "unsat" {
+			r.mu.Lock()
+			r.portfolioWins++
+			r.mu.Unlock()
+			return res
+		}
+		last = res
+	}
+	last.Status = "unknown"
+	return last
+}
